@@ -1,6 +1,8 @@
 (* C02 — Only addresses the configuration allows are ever handed out.  Statements only. *)
 From PSA Require Import model.Bytes model.Clients model.Ipdb model.Dhcp spec.SpecTable spec.SpecIpdb model.Server
   proofs.TableProofs proofs.LeaseProofs proofs.ServerProofs.
+From PSA Require Import spec.Monitors.
+From PSA Require Import spec.WireHyps spec.WireExample proofs.WireProofs proofs.WireInv proofs.WireHypsProofs proofs.WireExampleProofs.
 Open Scope N_scope.
 
 (* Over every history of grounded server operations (handleRequest passes to UpdateClient/HoldClient the
@@ -43,6 +45,23 @@ Theorem C02_static_only : forall x perm c pr now sg d t, dynamic_disabled x = tr
   fst (t_find_ip x perm c pr now sg d t) = None.
 Proof. exact static_only_no_search. Qed.
 Print Assumptions C02_static_only.
+
+(* ON THE WIRE, over whole histories: for every configuration with distinct reserved hardware addresses and distinct reserved
+   addresses inside the network (the server's own among them) and every sequence of sequential rounds that the acceptor
+   accepts from the initial table, mon_C02 holds: the yiaddr of every OFFER and ACK lies inside the network, is not the
+   server's address, is the requesting hardware address's reserved address or else lies in the dynamic range, and with
+   static_only nothing is offered to an unreserved client.  Proof: the ownership invariant SInv (permanent entries = the
+   configured pairs; every other entry in the dynamic range, never on a permanent address or identity) is kept by every
+   accepted round; the OFFER/ACK of a round names an entry of the table after it. *)
+Theorem C02_on_the_wire : forall c h, cfg_wire_ok c -> cfg_srv_ok c -> Forall wf_round h -> seq_times 0%Z h -> accepted c h -> mon_C02 c h = true.
+Proof. exact accepted_history_c02. Qed.
+Print Assumptions C02_on_the_wire.
+
+Theorem C02_wire_nonvacuous : exists c h, wire_example = Some (c, h) /\
+  cfg_wire_ok c /\ cfg_srv_ok c /\ Forall wf_round h /\ seq_times 0%Z h /\ (0 <= hold_ns <= c_lease c)%Z /\ (0 <= req_hold_ns <= c_lease c)%Z /\
+  accepted c h /\ length h = 6%nat /\ length (events c h) = 2%nat /\ length (flat_map r_outs h) = 3%nat.
+Proof. exact wire_example_premises. Qed.
+Print Assumptions C02_wire_nonvacuous.
 
 Example C02_nonvacuous :
   let x := {| net_from := 10; net_to := 20; dyn_from := 12; dyn_to := 13; st := empty_store |} in
